@@ -132,7 +132,12 @@ func (w *world) history(id string, check bool) {
 				b.adds = append(b.adds, h)
 			}
 		} else {
-			b = w.rm.refBlock(v, verifParam("D", 2), refMin(verifParam("A", 2), maxN-len(w.rm.leaves)))
+			d, a := verifParam("D", 2), verifParam("A", 2)
+			if k == blocks-1 && k > 0 {
+				// the last block may have its own (smaller) bounds
+				d, a = verifParam("Dlast", d), verifParam("Alast", a)
+			}
+			b = w.rm.refBlock(v, d, refMin(a, maxN-len(w.rm.leaves)))
 		}
 		w.block(b, id)
 		if check {
